@@ -402,6 +402,7 @@ package node_info
 //@ func (*NodeInfo).addTaskResources
 //@   props C01 C14 C02
 //@   requires nodeWF(ni) && taskChargeable(task)
+//@   assume draSeparate(ni, task)
 //@   modifies ni.Used.milliCpu, ni.Used.memory, ni.Used.gpus, ni.Used.scalarResources[*], ni.Idle.milliCpu, ni.Idle.memory, ni.Idle.gpus, ni.Idle.scalarResources[*], ni.Releasing.milliCpu, ni.Releasing.memory, ni.Releasing.gpus, ni.Releasing.scalarResources[*], ni.UsedVector[*], ni.IdleVector[*], ni.ReleasingVector[*], ni.UsedSharedGPUsMemory[*], ni.ReleasingSharedGPUsMemory[*], ni.AllocatedSharedGPUsMemory[*], ni.ReleasingSharedGPUs[*], sumIdleGPUs(ni), sumIdleGPUMem(ni), sumReleasingGPUs(ni), sumReleasingGPUMem(ni)
 //@   ensures [usedCpuMem] ni.Used.milliCpu == old(ni.Used.milliCpu) + task.AcceptedResource.milliCpu && ni.Used.memory == old(ni.Used.memory) + task.AcceptedResource.memory
 //@   ensures [idleCpuMem] ni.Idle.milliCpu == old(ni.Idle.milliCpu) - idlePart(task, task.AcceptedResource.milliCpu) && ni.Idle.memory == old(ni.Idle.memory) - idlePart(task, task.AcceptedResource.memory)
@@ -421,6 +422,7 @@ package node_info
 //@ func (*NodeInfo).removeTaskResources
 //@   props C01 C14 C02
 //@   requires nodeWF(ni) && taskChargeable(task)
+//@   assume draSeparate(ni, task)
 //@   modifies ni.Used.milliCpu, ni.Used.memory, ni.Used.gpus, ni.Used.scalarResources[*], ni.Idle.milliCpu, ni.Idle.memory, ni.Idle.gpus, ni.Idle.scalarResources[*], ni.Releasing.milliCpu, ni.Releasing.memory, ni.Releasing.gpus, ni.Releasing.scalarResources[*], ni.UsedVector[*], ni.IdleVector[*], ni.ReleasingVector[*], ni.UsedSharedGPUsMemory[*], ni.ReleasingSharedGPUsMemory[*], ni.AllocatedSharedGPUsMemory[*], ni.ReleasingSharedGPUs[*], sumIdleGPUs(ni), sumIdleGPUMem(ni), sumReleasingGPUs(ni), sumReleasingGPUMem(ni)
 //@   ensures [usedCpuMem] ni.Used.milliCpu == old(ni.Used.milliCpu) - task.AcceptedResource.milliCpu && ni.Used.memory == old(ni.Used.memory) - task.AcceptedResource.memory
 //@   ensures [idleCpuMem] ni.Idle.milliCpu == old(ni.Idle.milliCpu) + idlePart(task, task.AcceptedResource.milliCpu) && ni.Idle.memory == old(ni.Idle.memory) + idlePart(task, task.AcceptedResource.memory)
@@ -470,6 +472,13 @@ package node_info
 // a task that can be handed to AddTask/RemoveTask/UpdateTask (code-derived nil-ness; PodInfo constructors establish it)
 //@ define taskWF(task *pod_info.PodInfo) bool = task != nil && task.Pod != nil && task.ResReq != nil && task.ResReq.scalarResources != nil && task.AcceptedResource != nil && task.AcceptedResource.scalarResources != nil
 // the maps of the task's request are not the node's own accounting maps
+// The per-claim DRA count map of a task's resource objects is not one of the node's per-GPU-group memory maps (same Go map
+// type map[string]int64). Since draSum is a real sum over the map (batch 11; it was a ghost attribute of the map object
+// before, which hid this), the charged GPU amount of a task is only stable across the node's own bookkeeping writes if
+// the maps are different objects. True by construction (draGpuCounts maps are made by the resource_info constructors and
+// SetDraGpus only); stated as an `assume` in the units that need it and listed in the evidence.
+//@ define notNodeGpuMap(ni *NodeInfo, m map[string]int64) bool = m != ni.UsedSharedGPUsMemory && m != ni.ReleasingSharedGPUsMemory && m != ni.AllocatedSharedGPUsMemory
+//@ define draSeparate(ni *NodeInfo, task *pod_info.PodInfo) bool = (task.AcceptedResource != nil ==> notNodeGpuMap(ni, task.AcceptedResource.draGpuCounts)) && (task.ResReq != nil ==> notNodeGpuMap(ni, task.ResReq.draGpuCounts))
 //@ define notNodeMap(ni *NodeInfo, m map[v1.ResourceName]int64) bool = m != ni.Idle.scalarResources && m != ni.Used.scalarResources && m != ni.Releasing.scalarResources
 //@ define taskSeparate(ni *NodeInfo, task *pod_info.PodInfo) bool = notNodeMap(ni, task.ResReq.scalarResources) && notNodeMap(ni, task.ResReq.migResources) && notNodeMap(ni, task.AcceptedResource.scalarResources) && notNodeMap(ni, task.AcceptedResource.migResources)
 //@ define podsWF(ni *NodeInfo) bool = ni.PodInfos != nil && ni.LegacyMIGTasks != nil && ni.PodAffinityInfo != nil
@@ -562,6 +571,7 @@ package node_info
 //@ func (*NodeInfo).UpdateTask
 //@   props C01 C14 C02 C13
 //@   requires nodeWF(ni) && podsWF(ni) && taskWF(ti) && taskSeparate(ni, ti) && storedOK(ni, ti)
+//@   assume draSeparate(ni, ti) && (pod_info.podKeyOf(ti.Pod) in ni.PodInfos ==> draSeparate(ni, storedTask(ni, ti)))
 //@   modifies ti.AcceptedResource, ti.ResourceReceivedType, ni.PodInfos[*], ni.LegacyMIGTasks[*], ni.Used.milliCpu, ni.Used.memory, ni.Used.gpus, ni.Used.scalarResources[*], ni.Idle.milliCpu, ni.Idle.memory, ni.Idle.gpus, ni.Idle.scalarResources[*], ni.Releasing.milliCpu, ni.Releasing.memory, ni.Releasing.gpus, ni.Releasing.scalarResources[*], ni.UsedVector[*], ni.IdleVector[*], ni.ReleasingVector[*], ni.UsedSharedGPUsMemory[*], ni.ReleasingSharedGPUsMemory[*], ni.AllocatedSharedGPUsMemory[*], ni.ReleasingSharedGPUs[*], sumIdleGPUs(ni), sumIdleGPUMem(ni), sumReleasingGPUs(ni), sumReleasingGPUMem(ni)
 //@   ensures [notFound] !old(pod_info.podKeyOf(ti.Pod) in ni.PodInfos) ==> result != nil && ni.Used.milliCpu == old(ni.Used.milliCpu) && ni.Used.memory == old(ni.Used.memory) && ni.Used.gpus == old(ni.Used.gpus) && ni.Idle.milliCpu == old(ni.Idle.milliCpu) && ni.Idle.memory == old(ni.Idle.memory) && ni.Idle.gpus == old(ni.Idle.gpus) && ni.Releasing.milliCpu == old(ni.Releasing.milliCpu) && ni.Releasing.memory == old(ni.Releasing.memory) && ni.Releasing.gpus == old(ni.Releasing.gpus)
 //@   ensures [otherPods] forall k common_info.PodID :: k != pod_info.podKeyOf(ti.Pod) ==> ni.PodInfos[k] == old(ni.PodInfos[k]) && (k in ni.PodInfos <==> old(k in ni.PodInfos))
